@@ -80,6 +80,15 @@ def insertSaved (v : Nat) (t : Tree) : List (Nat × Tree) → List (Nat × Tree)
   | [] => [(v, t)]
   | (w, u) :: rest => if v < w then (v, t) :: (w, u) :: rest else (w, u) :: insertSaved v t rest
 
+def treeIsEmpty : Tree → Bool
+  | .empty => true
+  | _ => false
+
+/-- the comparison `SaveVersion` makes when the target version already exists
+(mutable_tree.go:334-352): `existingEmpty != newEmpty || !bytes.Equal(existingHash, newHash)`. -/
+def saveConflict (hashOf : Tree → Bytes) (existing root : Tree) : Bool :=
+  treeIsEmpty existing != treeIsEmpty root || hashOf existing != hashOf root
+
 /-- `SaveVersion` (mutable_tree.go:293-435): the error (if any) and the new state.
 On success the saved version is `m'.version` and the hash that of `m'.root`. -/
 def saveVersion (hashOf : Tree → Bytes) (m : MT) : Option Err × MT :=
@@ -88,9 +97,7 @@ def saveVersion (hashOf : Tree → Bytes) (m : MT) : Option Err × MT :=
     let version := m.version + 1
     match m.lookup version with
     | some existing =>
-      let existingEmpty := match existing with | .empty => true | _ => false
-      let newEmpty := match m.root with | .empty => true | _ => false
-      if existingEmpty != newEmpty || hashOf existing != hashOf m.root then
+      if saveConflict hashOf existing m.root then
         -- error exit: the deferred function poisons the session
         (some .hashMismatch, { m with poisoned := true })
       else
@@ -129,6 +136,30 @@ def prune (m : MT) (to : Nat) : Except Err MT :=
   else .ok { m with saved := m.saved.filter (fun p => p.1 > to) }
 
 def availableVersions (m : MT) : List Nat := m.saved.map (·.1)
+
+/-- the mutating operations of a history. -/
+inductive Op where
+  | set (key : Key) (value : Option Val)
+  | rm (key : Key)
+  | save
+  | rollback
+  | load (v : Nat)
+  | prune (to : Nat)
+  | reopen
+
+/-- apply one operation (a refused operation leaves the state unchanged, except
+that a refused `save` poisons the session — as in the code). -/
+def apply (B : Nat) (hashOf : Tree → Bytes) (m : MT) : Op → MT
+  | .set k v => match m.set B k v with | .ok (m', _) => m' | .error _ => m
+  | .rm k => match m.remove B k with | .ok (m', _) => m' | .error _ => m
+  | .save => (m.saveVersion hashOf).2
+  | .rollback => m.rollback
+  | .load v => match m.loadVersion v with | .ok (m', _) => m' | .error _ => m
+  | .prune to => match m.prune to with | .ok m' => m' | .error _ => m
+  | .reopen => m.reopen.1
+
+/-- the state after a whole history, from a fresh tree over an empty database. -/
+def run (B : Nat) (hashOf : Tree → Bytes) (ops : List Op) : MT := ops.foldl (apply B hashOf) {}
 
 end MT
 end GnoVerif.C23
